@@ -67,9 +67,11 @@ def dup_paths_of(ufo):
                 continue
             seen = {}
             for k, v in plistlib.load(open(cp, "rb")).items():
-                if v in seen:
-                    dups.add("%s/%s" % (d, v))
-                seen[v] = k
+                nv = os.path.normpath(v)
+                if nv in seen:
+                    dups.add(os.path.normpath("%s/%s" % (d, v)))
+                    dups.add(os.path.normpath("%s/%s" % (d, seen[nv])))
+                seen[nv] = v
     except Exception:
         pass
     return dups
@@ -95,8 +97,9 @@ def run_bins(ctx, sh, out, seq_bin, par_bin, reps, threads):
 def compare(ctx, out, known_ids, threads, ufo_ids, store_replay=True):
     """compare every rayon result with the sequential one; returns statistics"""
     st = {"ufo_runs": 0, "load_ok": 0, "load_err": 0, "save_err": 0, "dup_class_ufos": 0, "dup_class_differences": 0,
-          "rep_variation": 0}
+          "rep_variation": 0, "sequential_build_not_repeatable": 0}
     seqdir = os.path.join(out, "res", "seq")
+    found = []
     for k in ufo_ids:
         ufo = os.path.join(out, "ufos", k)
         side = json.load(open(ufo + ".json")) if os.path.exists(ufo + ".json") else {}
@@ -111,8 +114,12 @@ def compare(ctx, out, known_ids, threads, ufo_ids, store_replay=True):
         else:
             st["load_err"] += 1
         sbase, stree = split_tree(sref)
-        # the sequential build itself must be repeatable (C10's business, but a precondition here)
-        variants = [("seq", f) for f in sorted(os.listdir(seqdir)) if f.startswith(k + ".rep")]
+        # the sequential build itself must be repeatable to serve as the reference; if it is not, that
+        # is C10's finding (determinism), not a difference between parallel and sequential: skip, count
+        if any(f.startswith(k + ".rep") for f in os.listdir(seqdir)):
+            st["sequential_build_not_repeatable"] += 1
+            continue
+        variants = []
         for t in threads:
             d = os.path.join(out, "res", "par%d" % t)
             variants += [("par%d" % t, f) for f in sorted(os.listdir(d)) if f == k + ".txt" or f.startswith(k + ".rep")]
@@ -127,14 +134,17 @@ def compare(ctx, out, known_ids, threads, ufo_ids, store_replay=True):
             what = None
             if gbase != sbase:
                 i = next((i for i in range(min(len(gbase), len(sbase))) if gbase[i] != sbase[i]), min(len(gbase), len(sbase)))
-                what = {"part": "load dump / Ok-Err status", "first_difference_line": i,
-                        "sequential": (sbase[i] if i < len(sbase) else "<end>")[:600],
-                        "parallel": (gbase[i] if i < len(gbase) else "<end>")[:600]}
+                a = sbase[i] if i < len(sbase) else "<end>"
+                b = gbase[i] if i < len(gbase) else "<end>"
+                c = next((j for j in range(min(len(a), len(b))) if a[j] != b[j]), min(len(a), len(b)))
+                lo = max(0, c - 120)
+                what = {"part": "load dump / Ok-Err status", "first_difference_line": i, "first_difference_column": c,
+                        "sequential": a[:40] + " ... " + a[lo:c + 400], "parallel": b[:40] + " ... " + b[lo:c + 400]}
             else:
                 sd = {l.split(" ", 3)[3]: l.split(" ", 3)[1:3] for l in stree if l.count(" ") >= 3}
                 gd = {l.split(" ", 3)[3]: l.split(" ", 3)[1:3] for l in gtree if l.count(" ") >= 3}
                 diff = sorted(p for p in set(sd) | set(gd) if sd.get(p) != gd.get(p))
-                outside = [p for p in diff if p not in dups]
+                outside = [p for p in diff if os.path.normpath(p) not in dups]
                 if not outside and dups:
                     st["dup_class_differences"] += 1
                     if KNOWN_DUP in known_ids:
@@ -144,9 +154,24 @@ def compare(ctx, out, known_ids, threads, ufo_ids, store_replay=True):
                         "sequential": {p: sd.get(p) for p in diff[:5]}, "parallel": {p: gd.get(p) for p in diff[:5]}}
             v = {"ufo": k, "build": tag, "result_file": f, "generator": side.get("params"), "generator_seed": side.get("seed"),
                  "demand": "dump of Font::load and tree of Font::save identical to the sequential build's", **what}
-            if store_replay:
-                v["ufo_copy"] = store_ufo(ctx, ufo, k)
-            ctx.violations.append(v)
+            v["glyphs"] = side.get("glyphs", 10**9)
+            found.append(v)
+    # one entry per (UFO, part), smallest UFO first; a copy of the UFO is stored for the first three
+    found.sort(key=lambda v: (v["glyphs"], v["ufo"], v["build"], v["result_file"]))
+    seen = {}
+    for v in found:
+        key = (v["ufo"], v["part"])
+        if key in seen:
+            seen[key]["also_in"] = seen[key].get("also_in", []) + ["%s/%s" % (v["build"], v["result_file"])]
+            continue
+        seen[key] = v
+        ctx.violations.append(v)
+    stored = {}
+    for v in ctx.violations:
+        if store_replay and (v["ufo"] in stored or len(stored) < 3):
+            if v["ufo"] not in stored:
+                stored[v["ufo"]] = store_ufo(ctx, os.path.join(out, "ufos", v["ufo"]), v["ufo"])
+            v["ufo_copy"] = stored[v["ufo"]]
     return st
 
 
@@ -248,7 +273,7 @@ def run(ctx, known, built):
                 if os.path.exists(src + ".json"):
                     shutil.copy(src + ".json", os.path.join(out, "ufos", "c_" + f + ".json"))
                 ncorpus += 1
-    reps = 12 if ctx.thorough() else 6
+    reps = 25 if ctx.thorough() else 10
     t0 = time.time()
     res = run_bins(ctx, sh, out, ctx.harness, par_bin, reps, THREADS)
     ctx.timings["runs"] = round(time.time() - t0, 1)
